@@ -127,6 +127,9 @@ def scenarios(ctx):
                ["plex", False, [["b64dec", ["malloc"]], ["malloc"]]]):
         data = b"QUJDREVGR0g" * 30 if ch[0] == "b64dec" or (ch[0] == "plex" and not ch[1]) else rng.randbytes(300)
         out.append(("io.run", {"chain": ch, "feeds": [data[:100].hex(), data[100:].hex()]}))
+    # key conversion to and from OpenSSL objects with private material of each type (always, also in the quick tier)
+    for kn in ("RSA-2048", "EC-P256", "EC-P521"):
+        out.append(("ossl.roundtrip", {"jwk": pool[kn]}))
     out.append(("jwk.gen", {"jwk": {"kty": "RSA", "bits": 2048}}))
     out.append(("misc.entity_hist", {"kind": "jws", "start": {"payload": "cA"}, "objs": [{"signature": "s1"}, {"signature": "s2", "protected": "cDI"}],
                                      "plural": "signatures", "keys": ["signature", "protected", "header"]}))
